@@ -1,10 +1,15 @@
 """C01 -- the parse cache is transparent over any cache history.
 
-E1 (BFS over event histories on a real cache folder, deviation-bounded) + E3 (every prefix of a
-stored pickle).  Events act on one cache folder and one process; the clock and the pymoca version
-are seams owned by the harness.  See DESIGN.md C01.
+E1 (BFS over event histories on a real cache folder, deviation-bounded) + E3 (every prefix and every
+single-byte damage of a stored pickle).  Events act on one cache folder and one process; the clock and the
+pymoca version are seams owned by the harness.  See DESIGN.md C01.
 
-Two things the statement covers beyond "three unrelated texts, results only looked at":
+Three things the statement covers beyond "three unrelated texts, results only looked at, hand-made bad entries":
+* "entries that no longer unpickle": which entries those are is decided by the pickle module, not by a list of
+  exception types.  E3 damages the stored pickle one byte at a time (replace / delete / insert at every offset) and
+  stores values of another storage class in the data column, asks plain pickle.loads() -- outside pymoca -- what it
+  does with each, and judges parse() on every outcome "raises <any type>"; one entry per exception type that the
+  hand-made faults do not raise joins the BFS alphabet so that it combines with all other events.
 * "for any text": the alphabet holds a family of *near-duplicate* texts -- a base text OK3 and its image under
   each member of a stated family of text normalisations (line endings, trailing blanks, blank runs, tabs,
   letter case, accents, Unicode composition).  Every member is a different text with a different tree, so a
@@ -117,6 +122,126 @@ _CFG = {"tier": "quick", "cap": 2}
 _OTHER = {}  # the valid-but-different tree that ENTRY other-version-differs stores (one pickle per process)
 _FRESH = {}
 
+# ---- damaged entries: what plain pickle does with them ------------------------------
+# "Entries that no longer unpickle" is defined by the pickle module, not by a list of exception types: an entry
+# is in the alphabet iff plain pickle.loads(), called by the harness outside pymoca, RAISES on it (any exception
+# type).  The harness classifies every candidate itself and judges parse() only on those (and on entries that
+# still load to an equal tree); an entry that loads to a different object under the current version is counted
+# and left alone (outside the alphabet, see the registry text).
+#
+# One damaged length byte can turn the next four bytes into a memo index (LONG_BINPUT) of 10^9 and make the
+# unpickler allocate tens of GB.  Every pickle.loads() of the harness and every parse() therefore runs under an
+# address-space limit of the current size + HEADROOM; such an entry then "raises MemoryError" at once -- in plain
+# pickle and inside parse() alike -- instead of taking the machine down.
+HEADROOM = 512 << 20
+COLUMN = {"null": None, "integer": 7, "text": "no blob"}  # data column of another storage class than BLOB
+_PAGE = os.sysconf("SC_PAGE_SIZE")
+
+
+@contextlib.contextmanager
+def mem_limit():
+    import resource
+
+    soft, hard = resource.getrlimit(resource.RLIMIT_AS)
+    with open("/proc/self/statm") as f:
+        lim = int(f.read().split()[0]) * _PAGE + HEADROOM
+    for cap in (soft, hard):
+        if cap != resource.RLIM_INFINITY:
+            lim = min(lim, cap)
+    resource.setrlimit(resource.RLIMIT_AS, (lim, hard))
+    try:
+        yield
+    finally:
+        resource.setrlimit(resource.RLIMIT_AS, (soft, hard))
+
+
+def classify(blob, ref):
+    """What plain pickle does with `blob` (the value of a data column): ("equal",) -- loads to a tree whose dump is
+    `ref`; ("different",) -- loads to anything else; ("raises", exception type name)."""
+    try:
+        # stderr: CPython prints "deallocated bytearray object has exported buffers" for some damaged pickles
+        with contextlib.redirect_stderr(io.StringIO()), mem_limit():
+            obj = pickle.loads(blob)
+    except Exception as ex:
+        return ("raises", type(ex).__name__)
+    try:
+        return ("equal",) if obj is not None and dump.dump(obj) == ref else ("different",)
+    except Exception:
+        return ("different",)
+
+
+def damages(data, lo, hi, tier):
+    """Single-byte damage of `data` at offsets lo..hi-1, in canonical order.  Replacement in place by 0x00, 0xff,
+    original xor 1, original + 1 (thorough: by each of the 255 other values); thorough also: the byte deleted, and
+    0x00 / 0xff / a copy of the byte inserted in front of it (offset len(data): appended)."""
+    for off in range(lo, min(hi, len(data))):
+        o = data[off]
+        vals = range(256) if tier == "thorough" else (0x00, 0xFF, o ^ 1, (o + 1) & 255)
+        seen = {o}
+        for v in vals:
+            if v not in seen:
+                seen.add(v)
+                yield ("byte", off, v)
+    if tier == "thorough":
+        for off in range(lo, min(hi, len(data))):
+            yield ("del", off)
+        for off in range(lo, min(hi, len(data) + 1)):
+            seen = set()
+            for v in (0x00, 0xFF, data[off] if off < len(data) else data[-1]):
+                if v not in seen:
+                    seen.add(v)
+                    yield ("ins", off, v)
+
+
+def damage(data, d):
+    """The data column after damage d; a damage that does not fit (offset beyond the end) leaves it as it is."""
+    if d[0] == "column":
+        return COLUMN[d[1]]
+    if not isinstance(data, bytes):
+        return data
+    off = d[1]
+    if d[0] == "byte":
+        return data[:off] + bytes([d[2]]) + data[off + 1 :] if off < len(data) else data
+    if d[0] == "del":
+        return data[:off] + data[off + 1 :]
+    if d[0] == "ins":
+        return data[:off] + bytes([d[2]]) + data[off:] if off <= len(data) else data
+    raise ValueError(d)
+
+
+def fresh_pickle(t):
+    from pymoca import parser
+
+    return pickle.dumps(parser.parse(TEXTS[t], bypass_cache=True))
+
+
+_REPR = {}  # exception type -> (damage, blob): entry faults of the BFS alphabet found by classification
+_HAVE = []  # exception types that the hand-made entry faults raise
+
+
+def representatives():
+    """One damaged entry per exception type that single-byte damage (quick replacement set) of OK1's stored pickle
+    makes plain pickle raise and that none of the hand-made entry faults raises: the first one in canonical order.
+    Deterministic (a function of the pickle of OK1's tree), computed once per process."""
+    if not _REPR:
+        global GONE_ATTR
+        if GONE_ATTR is None:
+            GONE_ATTR = _gone_pickle("pymoca.ast", "NoSuchClassAnyMore")
+        data = fresh_pickle("OK1")
+        ref = fresh_dump("OK1")
+        have = {classify(b, ref) for b in (b"", data[: len(data) // 2], b"this is not a pickle", GONE_MODULE, GONE_ATTR)}
+        if any(c[0] != "raises" for c in have):
+            raise RuntimeError("harness: a hand-made entry fault unpickles: %r" % sorted(have))
+        found = {}
+        for d in damages(data, 0, len(data), "quick"):
+            blob = damage(data, d)
+            c = classify(blob, ref)
+            if c[0] == "raises" and c not in have and c[1] not in found:
+                found[c[1]] = (d, blob)
+        _HAVE[:] = sorted(c[1] for c in have)
+        _REPR.update(found)
+    return _REPR
+
 
 class FakeTime:
     def __init__(self):
@@ -149,6 +274,10 @@ def all_events(tier, family=True):
     evs += [("VER", v) for v in VERSIONS]
     evs += [("CLK", 2), ("CLK", 40)]
     evs += [("ENTRY", k) for k in ("empty", "half", "garbage", "gone-module", "gone-class", "other-version-differs")]
+    # entries on which pickle raises an exception type that none of the hand-made faults above raises (found by
+    # classifying single-byte damage, see representatives()), and a data column that holds no BLOB at all
+    evs += [("ENTRY", "raises", x) for x in sorted(representatives())]
+    evs.append(("ENTRY", "column", "null"))
     evs += [("LAYOUT", k) for k in ("models-foreign", "metadata-foreign", "drop-models", "drop-metadata", "metadata-keys-deleted")]
     evs += [("FILE", k) for k in ("garbage", "half", "zero", "deleted")]
     evs.append(("RELOAD",))  # keep last: it replaces the parse function object
@@ -301,7 +430,7 @@ class World:
             # an entry "written by another version with a different tree" (ENTRY other-version-differs) is a
             # legitimate cache content only while that version is not the running one
             tgt = VERSIONS[ev[1]]
-            return not any(r[1] == tgt and bytes(r[2] or b"") == _OTHER.get("data") for r in (self.rows() or ()))
+            return not any(r[1] == tgt and r[2] == _OTHER.get("data") for r in (self.rows() or ()))
         if k == "ENTRY":
             rows = self.rows()
             if ev[1] == "other-version-differs":
@@ -330,7 +459,7 @@ class World:
         elif k == "CLK":
             self.clock.now += ev[1] * DAY_NS
         elif k == "ENTRY":
-            self.entry_fault(ev[1], ev[2] if len(ev) > 2 else None)
+            self.entry_fault(*ev[1:])
         elif k == "LAYOUT":
             self.layout_fault(ev[1])
         elif k == "FILE":
@@ -344,7 +473,8 @@ class World:
         dirty = VERSIONS[self.version].endswith(".dirty")
         before = self.snapshot()["files"] if dirty else None
         try:
-            with contextlib.redirect_stderr(io.StringIO()):  # ANTLR prints syntax errors of the BAD text
+            # ANTLR prints syntax errors of the BAD text; the address-space limit: see mem_limit()
+            with contextlib.redirect_stderr(io.StringIO()), mem_limit():
                 tree = self.parser.parse(TEXTS[t], model_cache_folder=self.folder, cache_expiration_days=e, always_update_last_hit=u)
         except Exception as ex:
             self.viol.append(("parse-raises:" + common.exc_sig(ex), "parse(%s, expiration=%r, update=%r) raised %r" % (t, e, u, ex)))
@@ -387,7 +517,8 @@ class World:
         s = getattr(self.parser.parse, "initialized_dbs", None)
         return bool(s) and (self.folder / DB) in s
 
-    def entry_fault(self, kind, n=None):
+    def entry_fault(self, kind, *a):
+        n = a[0] if a else None
         c = sqlite3.connect(self.dbpath)
         if kind == "other-version-differs":
             from pymoca import parser
@@ -401,7 +532,10 @@ class World:
             return
         rows = c.execute("SELECT rowid, data FROM models").fetchall()
         for rid, data in rows:
-            data = bytes(data) if data is not None else b""
+            if kind in ("byte", "del", "ins", "column"):  # in place, whatever the column holds
+                c.execute("UPDATE models SET data=? WHERE rowid=?", (damage(data, (kind,) + a), rid))
+                continue
+            data = data if isinstance(data, bytes) else b""
             if kind == "empty":
                 new = b""
             elif kind == "half":
@@ -410,6 +544,8 @@ class World:
                 new = data[:n]
             elif kind == "garbage":
                 new = b"this is not a pickle"
+            elif kind == "raises":
+                new = representatives()[n][1]
             elif kind == "gone-module":
                 new = GONE_MODULE
             elif kind == "gone-class":
@@ -484,8 +620,11 @@ class World:
             if h == bad:
                 self.viol.append(("failed-parse-stored", "a row keyed by the hash of the syntactically broken text exists (version %s)" % v))
             try:
-                if data is not None and pickle.loads(bytes(data)) is None:
-                    self.viol.append(("none-stored", "a cached entry unpickles to None"))
+                if isinstance(data, bytes):
+                    with mem_limit():
+                        obj = pickle.loads(data)
+                    if obj is None:
+                        self.viol.append(("none-stored", "a cached entry unpickles to None"))
             except Exception:
                 pass
 
@@ -527,7 +666,9 @@ class World:
         age = self.clock.now // 1000 - (last_hit or 0)
         day = 86400 * 10**6
         bucket = 0 if age < day else (1 if age <= 30 * day else 2)
-        return (str(h)[:8], str(v), hashlib.sha1(bytes(data or b"")).hexdigest()[:8], bucket)
+        # a data column of another storage class than BLOB is a state of its own (NULL is not the empty blob)
+        blob = data if isinstance(data, bytes) else ("\x00%s:%r" % (type(data).__name__, data)).encode()
+        return (str(h)[:8], str(v), hashlib.sha1(blob).hexdigest()[:8], bucket)
 
 
 def _init(tier, plan=0):
@@ -627,9 +768,80 @@ def prefix_job(args):
 
 
 def pickle_len(t):
-    from pymoca import parser
+    return len(fresh_pickle(t))
 
-    return len(pickle.dumps(parser.parse(TEXTS[t], bypass_cache=True)))
+
+# ---- E3: single-byte damage of the stored pickle, data column of another storage class --------------
+
+
+def _clean_scratch(w):
+    for f in os.listdir(common.scratch_root()):  # scratch_root() is private to this worker
+        if f.startswith("c01_"):
+            shutil.rmtree(os.path.join(common.scratch_root(), f), ignore_errors=True)
+    w.folder = Path(common.new_scratch("c01"))
+    w.kept = []
+
+
+def sweep_job(args):
+    """Every single-byte damage at offsets lo..hi-1 of the pickle that parse() stored for text t: what plain pickle
+    does with it (counted per outcome), and -- with `judge` -- two parses on every damaged entry that is in the
+    alphabet (pickle raises, or it still loads to an equal tree).  The damaged entries are put into one folder one
+    after the other (parse() repairs the entry in between; the caller forgets the trees of the previous round); a
+    violation counts only if it shows again on the history  P(t) damage P(t) P(t)  from a fresh folder and module."""
+    t, lo, hi, tier, judge = args
+    P = ("P", t, 30, False)
+    ref = fresh_dump(t)
+    w = build([P])
+    rows = w.rows()
+    out = {"t": t, "counts": {}, "first": {}, "last": {}, "judged": 0, "viol": [], "len": None}
+    if not rows or len(rows) != 1 or not isinstance(rows[0][2], bytes):
+        return out  # nothing stored to damage: the BFS has reported why
+    orig = rows[0][2]
+    out["len"] = len(orig)
+    for d in damages(orig, lo, hi, tier):
+        blob = damage(orig, d)
+        c = classify(blob, ref)
+        k = " ".join(c)
+        out["counts"][k] = out["counts"].get(k, 0) + 1
+        out["first"].setdefault(k, list(d))
+        out["last"][k] = list(d)
+        if not judge or c[0] == "different" or len(out["viol"]) >= 3:
+            continue
+        out["judged"] += 1
+        con = sqlite3.connect(w.dbpath)
+        con.execute("UPDATE models SET data=?", (blob,))
+        con.commit()
+        con.close()
+        v = w.apply(P) + w.apply(P)
+        w.kept = []
+        if v:
+            hist = [P, ("ENTRY",) + tuple(d), P, P]
+            w = build(hist[:2])
+            v = w.apply(P) + w.apply(P)
+            if v:
+                out["viol"].append(([list(h) for h in hist], v, k))
+            w = build([P])
+    _clean_scratch(w)
+    return out
+
+
+def damage_job(args):
+    """One damaged entry as a history of its own: P(t), the damage, optionally a module reload, P(t), P(t).  What
+    plain pickle does with the column as it is then stored decides whether the two parses are judged."""
+    t, d, reload_first = args
+    P = ("P", t, 30, False)
+    hist = [P, ("ENTRY",) + tuple(d)]
+    if reload_first:
+        hist.append(("RELOAD",))
+    hist += [P, P]
+    w = build(hist[:-2])
+    rows = w.rows()
+    cls = classify(rows[0][2], fresh_dump(t)) if rows and len(rows) == 1 else None
+    v = []
+    if cls is not None and cls[0] != "different":
+        v = w.apply(P) + w.apply(P)
+    _clean_scratch(w)
+    return [list(h) for h in hist], v, " ".join(cls) if cls else "nothing stored"
 
 
 class _Tally:
@@ -687,10 +899,39 @@ def run(ctx):
                         for r in (False, True):
                             jobs.append((t, o, r))
                 res = pool.map(prefix_job, jobs)
+                # single-byte damage: classify everything (thorough: and judge everything), then one history of
+                # its own per outcome of pickle.loads (first and last damage with that outcome) and per column fault
+                thorough = ctx.tier == "thorough"
+                step = 8 if thorough else 64
+                sweeps = pool.map(sweep_job, [(t, lo, lo + step, ctx.tier, thorough) for t in ("OK1", "OK2") for lo in range(0, pickle_len(t) + 1, step)], chunksize=1)
+                djobs = []
+                for t in ("OK1", "OK2"):
+                    mine = [s for s in sweeps if s["t"] == t]
+                    for k in sorted({k for s in mine for k in s["counts"]}):
+                        if k != "different":
+                            ds = [[s for s in mine if k in s["first"]][0]["first"][k], [s for s in mine if k in s["last"]][-1]["last"][k]]
+                            djobs += [(t, tuple(d), r) for d in ds[: 1 if ds[0] == ds[1] else 2] for r in (False, True)]
+                    djobs += [(t, ("column", k), r) for k in COLUMN for r in (False, True)]
+                dres = pool.map(damage_job, djobs)
     for hist, v in res:
         for sig, msg in v:
             ctx.violation(sig, "after truncating the stored pickle: " + msg, {"history": hist})
+    outcomes = {}
+    for s in sweeps:
+        for k, n in s["counts"].items():
+            outcomes[k] = outcomes.get(k, 0) + n
+        for hist, v, k in s["viol"]:
+            for sig, msg in v:
+                ctx.violation(sig, "after one damaged byte in the stored pickle (plain pickle: %s): %s" % (k, msg), {"history": hist})
+    for hist, v, k in dres:
+        for sig, msg in v:
+            ctx.violation(sig, "after damaging the stored entry (plain pickle: %s): %s" % (k, msg), {"history": hist})
+    damaged = sum(outcomes.values())
+    swept = sum(s["judged"] for s in sweeps)
+    histories = sum(1 for _, _, k in dres if k not in ("different", "nothing stored"))
     ctx.sample({"history": res[len(res) // 2][0]})
+    if dres:
+        ctx.sample({"history": dres[len(dres) // 2][0]})
     transitions = sum(st["transitions"] for st in searches)
     states = sum(st["states"] for st in searches)
     ctx.coverage.update(
@@ -701,10 +942,18 @@ def run(ctx):
             "closed": all(st["closed"] for st in searches),
             "frontier_left": sum(st["frontier_left"] for st in searches),
             "searches": searches,
-            "traces_validated_against_impl": transitions + len(jobs),
-            "evaluations": transitions + len(jobs),
+            "traces_validated_against_impl": transitions + len(jobs) + swept + histories,
+            "evaluations": transitions + len(jobs) + swept + histories,
             "distinct_nontrivial": max(0, states - len(searches)),
             "pickle_prefixes": len(jobs),
+            "damaged_entries_classified_by_plain_pickle": damaged,
+            "damaged_entries_by_outcome_of_plain_pickle": dict(sorted(outcomes.items())),
+            "damaged_entries_outside_alphabet_not_judged": outcomes.get("different", 0),
+            "damaged_entries_parsed_in_sweep": swept,
+            "damaged_entry_histories": histories,
+            "damaged_entry_histories_by_outcome": {k: sum(1 for _, _, k2 in dres if k2 == k) for k in sorted({k for _, _, k in dres})},
+            "entry_faults_found_by_classification": {x: list(d) for x, (d, _) in sorted(representatives().items())},
+            "entry_faults_hand_made_raise": list(_HAVE),
             "near_duplicate_texts": len(FAMILY),
             "near_duplicate_ordered_pairs_parsed": len(tally.pairs),
             "near_duplicate_ordered_pairs_possible": len(FAMILY) * (len(FAMILY) - 1),
@@ -717,13 +966,21 @@ def run(ctx):
             "%d near-duplicate texts (OK3 with a multi-line, blank-, tab-, case- and accent-carrying string literal, and its "
             "image under: LF->CRLF, strip trailing blanks, collapse blank runs, expand tabs, lower case, other accent, NFD -- "
             "all different texts with different trees), module reload, versions v1/v2/v1.dirty, clock +2d/+40d, stored pickle "
-            "emptied/halved/garbage/class-gone/other-version entry holding a different tree, tables re-laid-out or dropped, "
+            "emptied/halved/garbage/class-gone/other-version entry holding a different tree/one byte damaged so that pickle raises X "
+            "(one entry per further exception type)/data column NULL, tables re-laid-out or dropped, "
             "metadata keys deleted, file garbage/truncated/zero/deleted; state = abstraction of the database (layouts, "
             "metadata keys, rows with key prefix, version, data hash and age bucket), process-initialised flag, version, and "
             "per text the number of results handed out in this process (0..cap); every parse is compared structurally with "
             "the uncached parse of the same text, after which the caller edits the returned tree in place (every reachable "
             "container and pymoca object) and keeps it.  Plus %d prefix lengths of the stored pickle (E3), each with and "
-            "without a module reload, followed by two parses."
+            "without a module reload, followed by two parses.  Plus single-byte damage of the stored pickle of OK1 and of OK2 "
+            "(E3): at every offset the byte replaced by 0x00, 0xff, original xor 1, original + 1 (thorough: by every other "
+            "value; and the byte deleted; and 0x00 / 0xff / a copy of it inserted), %d damaged entries, each classified by "
+            "plain pickle.loads outside pymoca (loads to an equal tree / loads to a different object / raises type X); "
+            "entries that load to a different object are outside the alphabet and only counted (%d); %s; "
+            "plus a data column holding NULL / an integer / a text.  The exception types that the hand-made entry faults do "
+            "not raise (%s) each contribute the first such damaged entry to the BFS alphabet (ENTRY raises X), NULL likewise.  "
+            "All pickle.loads and parse calls run under an address-space limit of current size + 512 MB."
             % (
                 "; ".join(
                     "search '%s': all histories of length <= %d with <= %d deviations over %d events (%s near-duplicates, "
@@ -733,11 +990,25 @@ def run(ctx):
                 ),
                 len(FAMILY),
                 len(jobs),
+                damaged,
+                outcomes.get("different", 0),
+                "parse() is run twice on every other damaged entry (%d), and on the first and the last damaged entry of each "
+                "outcome as a history of its own with and without a module reload (%d histories)" % (swept, histories)
+                if swept
+                else "parse() is run on the first and the last damaged entry of each outcome, as a history of its own "
+                "(P, damage, [reload], P, P; %d histories)" % histories,
+                ", ".join(sorted(representatives())),
             ),
         }
     )
     ctx.assumptions += [
-        "one process, one folder (sharing is C02); pickles that load to a foreign *object* under the current version are outside the alphabet",
+        "one process, one folder (sharing is C02); pickles that load to a foreign *object* under the current version are outside "
+        "the alphabet: whether a damaged entry still loads is decided by plain pickle.loads run by the harness on the stored value",
+        "every pickle.loads of the harness and every parse() runs under RLIMIT_AS = current size + 512 MB (a damaged length byte can "
+        "make the unpickler ask for tens of GB); an entry on which pickle then raises MemoryError is judged like any other entry "
+        "that no longer unpickles",
+        "single-byte damage is applied to the pickles of OK1 and OK2 only (pickle opcodes and their operands do not depend on the "
+        "text); multi-byte damage other than truncation is not explored",
         "clock and pymoca.__version__ are seams set by the harness (as the repository's own cache tests do)",
         "process state of the cache lives in pymoca.parser: importlib.reload(parser) stands for a new process (a verdict "
         "reached after sibling events ran in the same worker is re-derived from the history alone before it is reported)",
@@ -751,7 +1022,7 @@ def replay(case):
     w = build(())
     ok = True
     for ev in case["history"]:
-        if not w.enabled(tuple(ev)) and not (ev[0] == "ENTRY" and ev[1] == "prefix"):
+        if not w.enabled(tuple(ev)) and not (ev[0] == "ENTRY" and ev[1] in ("prefix", "byte", "del", "ins", "column")):
             print(ev, "-> not enabled here: this history is outside the alphabet")
             return True
         v = w.apply(tuple(ev))
